@@ -3,5 +3,6 @@ EXTENDS Interrupt
 T3 == {"a", "b", "c"}
 \* a <- c, b <- c : two slow roots in parallel and a dependant
 FanDeps == [t \in T3 |-> IF t = "c" THEN {"a", "b"} ELSE {}]
+WideDeps == [t \in T3 |-> {}]
 ChainDeps == [t \in T3 |-> CASE t = "a" -> {} [] t = "b" -> {"a"} [] t = "c" -> {"b"}]
 ====
